@@ -11,7 +11,7 @@
   modelled; what happens to a single character is shared with the contiguous definition
   (Spec/Flat.lean), because a single fragment *is* contiguous memory (libc `memchr`, the inner loops).
   The model follows the code after the `fix:` commits 4f20369 (message_append), bded5e4 (message_argv
-  whitespace skip), 76755a6 (memtok comment skip).
+  whitespace skip), 76755a6 (memtok comment skip) and the message_argv quote scanner fix (nextSpace).
 -/
 import MptModel.Basic
 import MptModel.Impl.Ring
@@ -175,16 +175,10 @@ def trim (m : Msg) : Res Msg :=
       | none => .oob
     | none => .ok m
 
-/-- the search for white space outside quotes in `mpt_message_argv`: `mpt_memtok` on the current
-    fragment, then — with a **fresh** scanner state — on the continuation
-    (known finding: an open quote is forgotten at that boundary) -/
-def spaceEnd (m : Msg) : Option Nat :=
-  match Iov.memtok [m.base] wsTok with
-  | some p => some p
-  | none =>
-    match (if m.cont.length ≠ 0 then Iov.memtok m.cont wsTok else none) with
-    | some p => some (m.base.length + p)
-    | none => none
+/-- `nextSpace` of message_argv.c (fix: quote scanner keeps its state): white space outside quotes, searched over
+    the current fragment and the continuation with ONE scanner state — the character rules are those
+    of `mpt_memtok(…, "\t \n\r\v", NULL, "'\"")` -/
+def spaceEnd (m : Msg) : Option Nat := Iov.memtok (m.base :: m.cont) wsTok
 
 /-- `mpt_message_argv(msg, sep)`: the cursor afterwards and the return value -/
 def argv (m : Msg) (sep : Byte) : Msg × Res Nat :=
@@ -204,20 +198,6 @@ def argv (m : Msg) (sep : Byte) : Msg × Res Nat :=
     | .oob => (m0, .oob)
     | .fault => (m0, .fault)
 
-/-- the region of the known finding `quote-open-at-base-end`: a white-space separator, and the quote
-    scanner reaches the end of the (trimmed) base fragment inside a quote or right after a backslash
-    while bytes follow in the continuation.  Outside this region `argv` agrees with the contiguous
-    computation (`C17.argv_flat_partial`). -/
-def quoteSplit (m : Msg) (sep : Byte) : Bool :=
-  let m0 := skipEmpty m.base m.cont
-  sep != 0 && !isGraph sep && m0.base.length != 0 &&
-  match trim m0 with
-  | .ok m1 =>
-    match Flat.scan (tokStep wsTok) {} m1.base with
-    | .more s => (s.quote.isSome || s.prev == 92) && !m1.cont.flatten.isEmpty
-    | .found _ => false
-  | _ => false
-
 /-- loop of `mpt_array_message`; the array is a byte list (`mpt_array_append` = append,
     data pointer 0 = zero bytes) -/
 def argsLoop (sep : Byte) : Nat → Msg → List Byte → Nat → Res (Nat × List Byte)
@@ -236,17 +216,6 @@ def argsLoop (sep : Byte) : Nat → Msg → List Byte → Nat → Res (Nat × Li
     | (_, .null) => .null
     | (_, .oob) => .oob
     | (_, .fault) => .fault
-
-/-- does some `mpt_message_argv` call of the `mpt_array_message` loop fall into `quoteSplit`? -/
-def argsSplit (sep : Byte) : Nat → Msg → Bool
-  | 0, _ => false
-  | fuel + 1, m =>
-    m.quoteSplit sep ||
-    match m.argv sep with
-    | (m1, .ok len) =>
-      if len = 0 ∧ sep ≠ 0 then false
-      else argsSplit sep fuel ((if len = 0 then (⟨m1, 0, []⟩ : ReadRes) else m1.read len).msg.read 1).msg
-    | _ => false
 
 /-- `mpt_array_message(arr, msg, sep)`: number of arguments and the new array content -/
 def arrayMessage (m : Msg) (sep : Byte) : Res (Nat × List Byte) :=
